@@ -26,6 +26,7 @@ ActFor(act) ==
     [] act.a = "bjoin"      -> ApiBroadcastJoin
     [] act.a = "leave"      -> ApiLeave
     [] act.a = "reap"       -> ApiReap(act.f, act.l)
+    [] act.a = "expire"     -> TimeExpire(act.s)
     [] OTHER                -> FALSE
 
 Conform == ActFor(Line.act) /\ last' = Line.act /\ obs' = Line.obs
